@@ -24,6 +24,9 @@ let parse_op tok =
   match tok.[1] with
   | 'e' -> (FExact (str text), inclusive)
   | 'r' -> (FRegex (str text), inclusive)
+  (* a pre-built Regex with a RegexBuilder flag: a different regex from the plain pattern; the oracle row is recorded
+     from that very Regex value, the model only needs a distinct key *)
+  | ('i' | 'm' | 's' | 'U') as k -> (FRegex (str (Printf.sprintf "(?%c)%s" k text)), inclusive)
   | _ -> failwith "bad op"
 
 let is_regex = function (FRegex _, _) -> true | _ -> false
@@ -395,7 +398,13 @@ let tim_gen use_spec line =
         let rl = List.rev lvls in
         let bench = parse_level (List.hd rl) and groups = List.map parse_level (List.rev (List.tl rl)) in
         let eff = (if use_spec then spec_effective else resolve) runner groups bench in
-        path ^ "=" ^ (if effective_skip_ext eff then "S" else "N")
+        (* "kind@path": which effective option this benchmark makes visible *)
+        (match String.index_opt path '@' with
+         | Some 2 when String.sub path 0 2 = "mn" ->
+           String.sub path 3 (String.length path - 3) ^ "=" ^ (match eff.o_min_time with Some x when x <> N0 -> "F" | _ -> "n")
+         | Some 2 when String.sub path 0 2 = "mx" ->
+           String.sub path 3 (String.length path - 3) ^ "=" ^ (match eff.o_max_time with Some _ -> "C" | None -> "n")
+         | _ -> path ^ "=" ^ (if effective_skip_ext eff then "S" else "N"))
       | _ -> failwith ("bad bench entry " ^ tok)) (nonempty (section secs "B")) in
   "T " ^ String.concat " " entries ^ " #Z " ^ (if binary then "bin" else "dec")
 
